@@ -4,6 +4,7 @@ package json
 
 import (
 	"bytes"
+	"context"
 
 	"github.com/goccy/go-json/internal/verifref"
 	"github.com/goccy/go-json/internal/verifrt"
@@ -113,5 +114,86 @@ func H_C11_handles(t *verifrt.T) {
 		got := w.Bytes()[n1:]
 		same := verifref.BytesEq(got, append(append([]byte{}, want...), '\n'))
 		t.Assert("second-encode-equals-marshal", same)
+	}
+}
+
+func init() {
+	VerifHarnesses["H_C11_options"] = H_C11_options
+}
+
+type voDup struct {
+	A int `json:"a"`
+}
+
+// An option given to ONE call never changes a later call that does not pass it:
+// every option-carrying entry point first, then every plain entry point on
+// inputs whose result would differ under the option (duplicate keys for
+// first-win; a two-key map and a string with '<' for unordered / colour /
+// no-HTML-escape). POOLREUSE=1: the second call gets the first call's context.
+func H_C11_options(t *verifrt.T) {
+	dupDoc := []byte(`{"a":1,"a":2}`)
+	val := map[string]string{"b": "<", "a": "x"}
+	switch t.Choice("first-call", 8) {
+	case 0:
+		var v voDup
+		UnmarshalWithOption(dupDoc, &v, DecodeFieldPriorityFirstWin())
+	case 1:
+		var v voDup
+		NewDecoder(bytes.NewReader(dupDoc)).DecodeWithOption(&v, DecodeFieldPriorityFirstWin())
+	case 2:
+		MarshalWithOption(val, UnorderedMap(), DisableHTMLEscape(), DisableNormalizeUTF8())
+	case 3:
+		MarshalWithOption(val, Colorize(DefaultColorScheme))
+	case 4:
+		MarshalIndentWithOption(val, ">", "\t", Colorize(DefaultColorScheme), UnorderedMap())
+	case 5:
+		var w bytes.Buffer
+		e := NewEncoder(&w)
+		e.SetEscapeHTML(false)
+		e.SetIndent(">", "\t")
+		e.EncodeWithOption(val, UnorderedMap())
+	case 6:
+		MarshalContext(SetFieldQueryToContext(context.Background(), &FieldQuery{Fields: []*FieldQuery{{Name: "a"}}}), &voDup{A: 1})
+	case 7:
+		var v voDup
+		UnmarshalContext(context.Background(), dupDoc, &v, DecodeFieldPriorityFirstWin())
+	}
+	wantEnc := []byte(`{"a":"x","b":"\u003c"}`)
+	switch t.Choice("second-call", 10) {
+	case 0:
+		var v voDup
+		err := Unmarshal(dupDoc, &v)
+		t.Assert("unmarshal-last-wins", verifrt.And(err == nil, v.A == 2))
+	case 1:
+		var v voDup
+		err := UnmarshalContext(context.Background(), dupDoc, &v)
+		t.Assert("unmarshalcontext-last-wins", verifrt.And(err == nil, v.A == 2))
+	case 2:
+		var v voDup
+		err := UnmarshalNoEscape(dupDoc, &v)
+		t.Assert("unmarshalnoescape-last-wins", verifrt.And(err == nil, v.A == 2))
+	case 3:
+		var v voDup
+		err := NewDecoder(bytes.NewReader(dupDoc)).Decode(&v)
+		t.Assert("decoder-last-wins", verifrt.And(err == nil, v.A == 2))
+	case 4:
+		out, err := Marshal(val)
+		t.Assert("marshal-default-options", verifrt.And(err == nil, verifref.BytesEq(out, wantEnc)))
+	case 5:
+		out, err := MarshalNoEscape(val)
+		t.Assert("marshalnoescape-default-options", verifrt.And(err == nil, verifref.BytesEq(out, wantEnc)))
+	case 6:
+		out, err := MarshalIndent(val, "", " ")
+		t.Assert("marshalindent-default-options", verifrt.And(err == nil, verifref.BytesEq(out, []byte("{\n \"a\": \"x\",\n \"b\": \"\\u003c\"\n}"))))
+	case 7:
+		out, err := MarshalContext(context.Background(), val)
+		t.Assert("marshalcontext-default-options", verifrt.And(err == nil, verifref.BytesEq(out, wantEnc)))
+	case 8:
+		var w bytes.Buffer
+		err := NewEncoder(&w).Encode(val)
+		t.Assert("encoder-default-options", verifrt.And(err == nil, verifref.BytesEq(w.Bytes(), append(append([]byte{}, wantEnc...), '\n'))))
+	case 9:
+		out, err := Marshal(&voDup{A: 1})
+		t.Assert("marshal-unfiltered", verifrt.And(err == nil, verifref.BytesEq(out, []byte(`{"a":1}`))))
 	}
 }
